@@ -19,7 +19,8 @@
       mode   = 0 prune.Prune on a recording store | 1 `wrgl prune` | 2 `wrgl gc` (1,2: no delete trace)
       state  = (commits tables tblidx prof blocks blkidx refs)
       commits= ((id tableid (parent ...)) ...)      tables = ((id (blk ...) (blkidx ...) . _) ...)
-      tblidx, prof, blocks, blkidx = (id ...)       refs = ((kind num commit) ...)
+      tblidx, prof, blocks, blkidx = (id ...)       refs = ((kind num commit) ...)   (names are opaque here; the harness
+                                                    turns (kind, num) into flat and multi-component heads/ tags/ remotes/ txs/ names)
       op     = (0)            prune
              | (1 kind num)   delete ref           | (2 kind num commit) set ref
              | (3 k)          prune on a store whose (k+1)-th Delete fails (crash/IO error after k deletes)
